@@ -5,7 +5,8 @@ plus wide supports (11, 21) for the ten-per-line rule, x every solver assignment
 of pycryptosat / pyunigen / pycmsgen bound at the module seams).
 Oracle: an independent strict DIMACS reader recovers exactly the clause multiset; header clause count exact; header
 variable count >= distinct variables used; 'c ind' lines == 1..support (<=10 per line, 0-terminated);
-parse_cnf_file and the clauses handed to the solver equal the same; cryptominisat_solve / sample_uniform /
+parse_cnf_file and the clauses handed to the solver equal the same; cryptominisat_solve (library emulation and the solver's
+text answer wrapped over 'v' lines of every width) / sample_uniform /
 build_solution return exactly the scripted assignment; after update_file the file parses to the old clauses plus
 one clause that is false on exactly the previous support assignment (all 2^support assignments checked), header +1.
 """
@@ -298,6 +299,30 @@ def check_cnf(clauses, viols, cnt):
                 viols.append(core.viol('cmsgen_input_differs', sig, clauses=clauses, support=support))
         finally:
             ugmod.pyunigen, ugmod.HAS_PYUNIGEN, ugmod.pycmsgen, ugmod.HAS_PYCMSGEN = saved
+        # ---- F. the solver's TEXT answer (binary / docker path): the assignment wrapped over 'v' lines of every width, with comment
+        #         and status lines around it, must come back literal for literal
+        from subprocess import CompletedProcess
+        saved_cli = cmsmod.call_cryptominisat_cli
+        try:
+            for a in (assigns if len(assigns) <= 8 else assigns[:3] + assigns[-3:]):
+                lits = [v if a[v] else -v for v in vars_] + [0]
+                for width in sorted(set([1, 2, 3, 5, len(lits)])):
+                    if width > len(lits):
+                        continue
+                    lines = ['v ' + ' '.join(str(x) for x in lits[i:i + width]) for i in range(0, len(lits), width)]
+                    text = 'c solver banner\ns SATISFIABLE\n' + '\n'.join(lines) + '\n'
+                    cmsmod.call_cryptominisat_cli = lambda f, d, _t=text: CompletedProcess(args=['cms'], returncode=10, stdout=_t.encode(), stderr=b'')
+                    utility.save_cnf(path, cnf, None, support)
+                    got = cmsmod.cryptominisat_solve(path, False)
+                    cnt['transitions'] += 1
+                    if got != lits:
+                        viols.append(core.viol('solver_text_misparsed', dict(sig, wrapped=len(lines) > 1), clauses=clauses, text=text, got=got, expected=lits))
+                        break
+            cmsmod.call_cryptominisat_cli = lambda f, d: CompletedProcess(args=['cms'], returncode=20, stdout=b's UNSATISFIABLE\n', stderr=b'')
+            if cmsmod.cryptominisat_solve(path, False) != []:
+                viols.append(core.viol('solver_text_unsat_misparsed', sig, clauses=clauses))
+        finally:
+            cmsmod.call_cryptominisat_cli = saved_cli
         if path.exists():
             path.unlink()
     return nontrivial
